@@ -82,6 +82,12 @@ def gen_used_query(run, rng):
         q['dests'] = 'plates'
     else:
         q['dests'] = rng.sample(used_names, rng.randint(1, min(3, len(used_names))))
+        # bias: include the source side of some step (solvent containers, stocks) among the destinations
+        srcs = sorted(set(x for st in run.steps for x in (st.get('frm'), st.get('solvent_obj')) if x))
+        if srcs and rng.random() < 0.5:
+            x = rng.choice(srcs)
+            if x not in q['dests']:
+                q['dests'].append(x)
     q['explicit'] = [rng.random() < 0.5, rng.random() < 0.3]
     q['pass_result'] = rng.random() < 0.5
     return q
